@@ -745,6 +745,20 @@ func runC18(cfg config) {
 			{kind: "add", expr: "Patient.telecom[1]", field: "use", value: &dtpb.Code{Value: "work"}}}
 		doResource("Patient", 2, 4)
 	}
+	{ // elements that exist and hold their zero value (false, 0, '', an unset code): Add must still refuse them
+		zp := longPatient()
+		zp.Active = &dtpb.Boolean{Value: false}
+		zp.Gender = &ppb.Patient_GenderCode{}
+		zp.Name[0].Family = &dtpb.String{Value: ""}
+		zp.Telecom[0].Rank = &dtpb.PositiveInt{Value: 0}
+		zp.MultipleBirth = &ppb.Patient_MultipleBirthX{Choice: &ppb.Patient_MultipleBirthX_Integer{Integer: &dtpb.Integer{Value: 0}}}
+		prepared = zp
+		forced = []forcedOp{{kind: "add", expr: "Patient", field: "active", value: &dtpb.Boolean{Value: true}}, {kind: "add", expr: "Patient", field: "gender", value: &dtpb.Code{Value: "male"}},
+			{kind: "add", expr: "Patient.name[0]", field: "family", value: &dtpb.String{Value: "x"}}, {kind: "add", expr: "Patient.telecom[0]", field: "rank", value: &dtpb.PositiveInt{Value: 3}},
+			{kind: "replace", expr: "Patient.active", value: &dtpb.Boolean{Value: true}}, {kind: "add", expr: "Patient", field: "active", value: &dtpb.Boolean{Value: false}},
+			{kind: "delete", expr: "Patient.active"}, {kind: "add", expr: "Patient", field: "active", value: &dtpb.Boolean{Value: false}}, {kind: "add", expr: "Patient", field: "active", value: &dtpb.Boolean{Value: true}}}
+		doResource("Patient", 2, 10)
+	}
 	for _, name := range types {
 		doResource(name, 2, 7)
 	}
